@@ -338,7 +338,7 @@ class ImplWorld:
     def mkpool(self, toks):
         kind, sz, nm = toks[1], toks[2], toks[3]
         ps = math.inf if sz == "inf" else int(sz)
-        name = None if nm == "-" else nm
+        name = None if nm == "-" else dec_name(nm)
         ctx = PoolCtx(self, None, kind, sz)
         try:
             if kind == "simple":
